@@ -8,7 +8,8 @@ META = {
                  'changed; TLC checks EventsOK and Fresh exhaustively (and finds the stale-memo counter-example when the '
                  'mechanism is modelled as coded at the pinned commit, Mirror = TRUE); S->C replay compares delivered events '
                  '(receivers, locations, old/new, children-before-parents) and is_partial / sym_missing / sym_nondefault / '
-                 'sym_puresymbolic / is_deterministic of every live node after every call',
+                 'sym_puresymbolic / is_deterministic after every call under eight read policies (every node / roots only / only '
+                 'the node a ReadFacts step names; all facts or a single one), because what is read decides which memos exist',
     'level_text': 'The notification step and the memo mechanism are part of the model state, so exactly-once delivery, payload '
                   'and freshness are decided per step for whole histories (batched rebinds, accessor writes, every list/dict '
                   'mutator, scopes that disable notification, skip_notification, notify_parents=False) on trees mixing dicts, '
@@ -18,10 +19,14 @@ META = {
                   'model (a permutation has no old/new per location) but must refresh the facts; writes that reset a field '
                   'already holding its default, two rebind entries hitting one location, and paths into a placeholder object '
                   'are not generated (don\'t-care).  sym_nondefault() is projected to leaf locations (whole symbolic values '
-                  'expanded, anything below a placeholder collapsed).  Bounded as C01.',
+                  'expanded, anything below a placeholder collapsed) on key tuples, and each reported value must be the value stored '
+                  'there now.  Three-level schema dicts (fixed keys with defaults) and an object with an object-typed default member '
+                  'give holders that compute sym_nondefault() without asking their members.  Bounded as C01.',
 }
 
 CLAUSES = {'events', 'facts', 'ret'}
+# derived facts are read under eight policies (symtree_check.FACTS_POLICIES): which nodes and which fact are read after a
+# call decides which memos exist when the next write must invalidate them
 NEED = ('DictSet:ok', 'DictUpdate:ok', 'DictClear:ok', 'DictPopItem:ok', 'ListAppend:ok', 'ListInsert:ok', 'ListDel:ok',
         'ListExtend:ok', 'ListClear:ok', 'ListSetSlice:ok', 'ListReverse:ok', 'Rebind:ok', 'EnterNotify:ok', 'ReadFacts:ok')
 
